@@ -107,7 +107,7 @@ def font (req : Json) : R Reply := do
       let model := Json.mkObj [("err", Json.null), ("glyphs", glyphsJ), ("dec", Json.arr dec.toArray),
         ("dn", Json.arr #[intJ dn.1, intJ dn.2])]
       return { model, holds := bad.isEmpty && missing.isEmpty, info := strsJ (bad ++ missing),
-               hyp := Json.bool (goodCert gs (depthCert gs) && skip.isEmpty) }
+               hyp := Json.bool (wfCert gs) }
 
 def handle (op : String) (req : Json) : R Reply :=
   match op with
